@@ -169,7 +169,15 @@ def gen_c17(rng, oracle, index, tier="quick"):
         vs = [[0, 1, 1]] + [[i, g.leafb[i][0], g.leafb[i][1]] for i in ids]
         dpv = None if rng.random() < 0.3 else [rng.choice([-1, -1, -2, -3]) for _ in ids]
         ph = g.fresh("p")
-        g.emit({"op": "new", "h": ph, "recipe": ["rawpoly", rows, dt, vs, dpv]})
+        opts = {}
+        if rng.random() < 0.5:
+            # memory layouts numpy hands out every day: Fortran order, strided views of a larger buffer
+            opts["layout"] = rng.choice(["F", "rowslice", "colslice"])
+        if rows and rng.random() < 0.4:
+            # named rows (the row index is part of what a round trip must reproduce)
+            names = rng.sample(["R1", "R2", "R9", "R10", "rowA", "rowB", "0", "1"], len(rows))
+            opts["index"] = [[nm, 0, rng.choice([1, 1, 3])] for nm in names]
+        g.emit({"op": "new", "h": ph, "recipe": ["rawpoly", rows, dt, vs, dpv] + ([opts] if opts else [])})
         if ph in g.handles:
             rawpolys.append(ph)
             box = 1
@@ -181,6 +189,10 @@ def gen_c17(rng, oracle, index, tier="quick"):
                                           "has_default": False, "solver_safe": True}
             g.events.append(("new-rawpoly", dt, ()))
             g.hit("c17:hand-built-polyhedron:" + dt)
+            if opts.get("layout"):
+                g.hit("c17:hand-built-layout:" + opts["layout"])
+            if opts.get("index"):
+                g.hit("c17:hand-built-named-rows")
     # ---- choose what to snapshot
     targets = []
     objs = [h for h in g.order if g.handles[h]["kind"] in ("prop", "cfg")]
